@@ -73,11 +73,12 @@ def register(claim):
           "DESIGN.md section 5, C03")
     claim("C17", "exploration",
           f"{SIM}: refinement of a dictionary reference model over seeded multi-handle histories (original, copies, "
-          "negations) with operations interleaved across aliased handles, including scalar and bulk calls that fail half-way",
+          "negations) with operations interleaved across aliased handles, including scalar and bulk calls that fail half-way "
+          "and pairs of bulk operations on two different handles overlapped in caller threads (line-granular interleaver)",
           "After every one of 10..50 interleaved public operations every live handle is compared field by field with "
           "its dictionary model through every public getter; untouched handles must stay byte-identical; negation "
-          "is checked as swap-and-negate and as an involution. No fault kind applies to this property (stated in "
-          "DESIGN.md); simulation contributes interleaving across aliased handles and minimised replays.",
+          "is checked as swap-and-negate and as an involution. Fault kinds: calls failing half-way on unusable values, "
+          "thread pre-emption between package lines while another thread uses another handle.",
           "Bounds of unknown coalitions are compared only after being written through a bound setter; a false "
           "precondition may be rejected (table unchanged) or accepted (then it must act as set / unset).",
           "DESIGN.md section 5, C17")
@@ -129,7 +130,8 @@ def register(claim):
           "DESIGN.md section 5, C12")
     claim("C13", "exploration",
           f"{SIM}: (i) solver decisions at states reached by seeded client histories (step/unstep/reset/torn step) "
-          "against independently recomputed rewards + before/after snapshots; (ii) expected-greedy under the "
+          "against independently recomputed rewards + before/after snapshots, also with a second solver asked about a second "
+          "environment in an overlapped caller thread; (ii) expected-greedy under the "
           "simulated pool across schedules against an exhaustive recomputation",
           "Every registered solver is asked at reached states and its choice compared with its rule evaluated on "
           "rewards recomputed on fresh objects (ties to the lowest index), with bit-exact environment snapshots "
